@@ -13,8 +13,10 @@ var positiveGlobals = map[string]bool{
 	"Gen.CurveConsts.Q": true, "BabyJub.SubOrder": true, "BabyJub.Order": true,
 }
 
-func (t *tr) zArg(e ast.Expr) string {
-	v := t.eval(e)
+func (t *tr) zArg(e ast.Expr) string { return t.zVal(t.eval(e), e) }
+
+// zVal: the integer value of an evaluated pointer argument.
+func (t *tr) zVal(v *val, e ast.Expr) string {
 	if v.t.k != kZ && v.t.k != kFe {
 		t.fail("argument %s of type %s where an integer is expected", exprText(e), v.t)
 	}
@@ -70,7 +72,8 @@ func (t *tr) bigMethod(recv *val, m string, ce *ast.CallExpr) callRes {
 		return bin("*")
 	case "Mod":
 		t.nargs(ce, 2)
-		a, b := t.zArg(ce.Args[0]), t.zArg(ce.Args[1])
+		vs := t.evalAll(ce.Args[0], ce.Args[1]) // (values are read after both pointers are evaluated)
+		a, b := t.zVal(vs[0], ce.Args[0]), t.zVal(vs[1], ce.Args[1])
 		if !positiveGlobals[b] {
 			t.fail("Mod by %s, which is not a modulus known to be positive", b)
 		}
@@ -155,7 +158,10 @@ func (t *tr) feMethod(recv *val, m string, ce *ast.CallExpr) callRes {
 	switch m {
 	case "Mul", "Add", "Sub":
 		t.nargs(ce, 2)
-		a, b := par(t.zArg(ce.Args[0])), par(t.zArg(ce.Args[1]))
+		// both pointers are evaluated first, the values are read afterwards (as the Go
+		// method does): z.Sub(t, t.Set(e)) reads the NEW t twice
+		vs := t.evalAll(ce.Args[0], ce.Args[1])
+		a, b := par(t.zVal(vs[0], ce.Args[0])), par(t.zVal(vs[1], ce.Args[1]))
 		op := map[string]string{"Mul": "*", "Add": "+", "Sub": "-"}[m]
 		t.writeInt(recv, modq(a+" "+op+" "+b))
 		return one(recv)
